@@ -23,13 +23,13 @@ import numpy as np
 from runner import Infra, TieBroken
 
 ID = "C18"
-LEAN_MODULES = ["PyYetiVerif.Props.C18", "PyYetiVerif.Props.C18Up", "PyYetiVerif.Props.C18Idx", "PyYetiVerif.Audit.C18"]
+LEAN_MODULES = ["PyYetiVerif.Props.C18", "PyYetiVerif.Props.C18Up", "PyYetiVerif.Props.C18Idx", "PyYetiVerif.Props.C18Xyz", "PyYetiVerif.Audit.C18"]
 AUDIT_FILE = "PyYetiVerif/Audit/C18.lean"
 THEOREMS = [
     "PyYetiVerif.C18." + n
     for n in (
         "base_sets_disjoint superset_is_union superset_is_union_bitwise user_sets_separate inSet_subword table_partition mksetpv_refuses_iff mksetpv_spec mksetpv_named expanddof_digits expanddof2_spec lookup_sound lookup_complete mkdofpv_strict_iff mkdofpv_spec mkdofpv_positions mkdofpv_set mat_intersect_spec find_subseq_spec list_intersect_spec flippv_spec index2bool_spec normIndex_spec find_vals_spec find_rows_spec find_unique_spec find_duplicates_spec index2slice_cases index2slice_spec merge_lists_spec merge_lists_inserts mkusetmask_plus mksetpv_plus make_uset_sets make_uset_accepts make_uset_sets_partial make_uset_split_rows make_uset_ids make_uset_coords_partial upasetpv_spec scatter_spec upqsetpv_length upqsetpv_one_upstream qupOwn_spec "
-        "upqsetpv_fuel_stable upqsetpv_fuel_suffices upqsetpv_cycle_diverges cyclic_not_acyclic QConn_iff upqsetpv_spec canFlag_of_flagged separate_of_check upqIdx_eq_upasetpv upasetpv_perm mat_intersect_order mat_intersect_keep1 mat_intersect_keep2 mat_intersect_keep0 mat_intersect_keep_other findse_spec findse_find? nodeIds_spec nodeIds_make"
+        "upqsetpv_fuel_stable upqsetpv_fuel_suffices upqsetpv_cycle_diverges cyclic_not_acyclic QConn_iff upqsetpv_spec canFlag_of_flagged separate_of_check upqIdx_eq_upasetpv upasetpv_perm mat_intersect_order mat_intersect_keep1 mat_intersect_keep2 mat_intersect_keep0 mat_intersect_keep_other findse_spec findse_find? nodeIds_spec nodeIds_make xyz_triple_exact find_xyz_triples_exact"
     ).split()
 ]
 TRUSTED = [
@@ -50,6 +50,10 @@ TRUSTED = [
     "correspondence-checked against list(range(n))[slice(a, b, c)] (stream pyslice), not derived from CPython",
     "harness/props/c18_nas.py builds nas2cam-like dictionaries from a known superelement tree; the expected "
     "upasetpv / upqsetpv vectors used by the oracle come from that construction",
+    "find_xyz_triples: np.linalg.cond / inv / norm, np.allclose are modelled by exact rational inequalities (squared "
+    "where a square root occurs); the model reports `borderline` when two sides are within 1e-9 (relative) and those "
+    "inputs are skipped; a non-singular block on the grid 1/16 with entries up to 128 has cond < 1e12, so `cond > 1/eps` "
+    "is `det = 0` there",
     "n2p._findse / n2p._get_node_ids are private helpers: they are compared directly while they exist (a refactoring "
     "that removes them skips those two streams; upasetpv / upqsetpv, which use them, stay compared)",
 ]
@@ -65,7 +69,10 @@ RULE = (
     "entries, out-of-range / negative / short / permuted maps, scale != 1, dropped / extra / repeated dnids, short "
     "upids, selist rows dropped / repeated, a cyclic selist), the two dictionaries of the Lean examples, plus the three "
     "nas2cam files of pyYeti's own tests; selists with repeated / absent SEs for _findse, tables with rows removed for "
-    "_get_node_ids; mat_intersect with keep 0/1/2/3/5 on distinct rows in shuffled and descending order; locate inputs are short integer "
+    "_get_node_ids; mat_intersect with keep 0/1/2/3/5 on distinct rows in shuffled and descending order; rigid-body "
+    "matrices for find_xyz_triples on the grid 1/16 (1-4 nodes at quarter coordinates, signed-permutation / sheared / "
+    "non-orthogonal local systems, scales 1 2 3 4 10, rotation rows, deleted rows, perturbed rotation entries, tol 0.01 "
+    "and 0.3, the two docstring examples; 15% consist of exact triples only); locate inputs are short integer "
     "vectors/matrices over small alphabets (to force repeats), index vectors with negative and out-of-range "
     "entries, arithmetic progressions (ascending, descending, ending at index 0) and near-progressions, fixed edge "
     "cases (empty, single, all-equal, chains, a difference exactly tol). A case is one call compared exactly; "
@@ -97,8 +104,13 @@ PARTIAL = (
     "vector - the routine is modelled and correspondence-checked, nothing is claimed. Recursion: proved that the fuel "
     "selist.length+1 is never used up on an acyclic selist and that two SEs naming each other use up every fuel; that "
     "every other cyclic selist makes the real code recurse for ever is argued (pigeonhole), not proved, and tied by the "
-    "recursion-error branch. n2p.find_xyz_triples, formtran / formulvs / formdrm / addulvs (matrix routines built on the "
-    "set vectors) and usetprt (text) are not modelled. Float / mixed int-float inputs are dyadic (k/4) and modelled over "
+    "recursion-error branch. n2p.find_xyz_triples is modelled with exact rational decisions and proved on exact data "
+    "(find_xyz_triples_exact: a matrix made of x, y, z triples of nodes in orthogonal local systems at any scale - every "
+    "row is marked, with the node's location and scale); on inexact data (entries within the tolerances, rotation rows, "
+    "missing rows - the documented way the routine can be tricked) it is tied by the correspondence only, inputs with a "
+    "comparison within 1e-9 of its threshold or with a singular window of equal column norms are skipped and counted, "
+    "and cond(T1) > 1/eps is modelled as det T1 = 0. formtran / formulvs / formdrm / addulvs (matrix routines built on "
+    "the set vectors) and usetprt (text) are not modelled. Float / mixed int-float inputs are dyadic (k/4) and modelled over "
     "scaled Int; non-dyadic floats (rounding in tol*max, correlate, abs(diff) <= tol) are outside the exact model"
 )
 MANIFEST = {
@@ -111,12 +123,14 @@ MANIFEST = {
     "its original order; upqsetpv up the whole superelement tree (several upstream SEs, any depth, maps re-ordering: "
     "flag = connected to an upstream q-set DOF, by induction on the recursion) for dictionaries with separate "
     "connections, termination of its recursion exactly on acyclic selists, the places of its connections = upasetpv, "
-    "upasetpv with a permutation map is a permutation of the boundary rows; _findse, _get_node_ids; exact correspondence",
+    "upasetpv with a permutation map is a permutation of the boundary rows; _findse, _get_node_ids; find_xyz_triples "
+    "finds every node of a matrix of exact triples (location and scale); exact correspondence",
     "level_note": "library kernels (argsort, searchsorted, correlate, pandas / numpy indexing and index assignment, "
     "CPython slicing) are modelled and correspondence-checked; upqsetpv outside `Separate` (a later upstream SE "
     "overwriting an earlier flag at a shared place, broadcasting) is tied (correspondence + construction oracle) but "
     "nothing is claimed; make_uset coordinates with split component lists (undocumented) are only modelled; "
-    "find_xyz_triples and the matrix routines (formtran, formulvs, formdrm, addulvs) are not modelled",
+    "find_xyz_triples on inexact data (tolerance rule) is tied numerically (exact pv, coordinates / scales to 1e-9) but "
+    "not proved; the matrix routines (formtran, formulvs, formdrm, addulvs) are not modelled",
     "technique": "Lean 4 proof about executable models + ast translator for mkusetmask + exact differential "
     "correspondence + model-free oracle",
 }
@@ -937,6 +951,9 @@ def _gen_rb(rng):
 
     tags = set()
     rows = []
+    exact = rng.random() < 0.15  # only exact triples: the domain of find_xyz_triples_exact
+    if exact:
+        tags.add("exact-only")
     for _ in range(rng.randint(1, 4)):
         p = [F(rng.randint(-32, 32), 4) for _ in range(3)]
         if rng.random() < 0.15:
@@ -945,7 +962,7 @@ def _gen_rb(rng):
         T = [[F(0)] * 3 for _ in range(3)]
         for i, j in enumerate(perm):
             T[i][j] = F(rng.choice([1, 1, -1]))
-        r0 = rng.random()
+        r0 = 1.0 if exact else rng.random()
         if r0 < 0.12:
             T[0][(perm[0] + 1) % 3] = F(1, 4)  # slightly sheared: within tol = 0.3 only
             p = [F(int(v)) for v in p]
@@ -956,15 +973,15 @@ def _gen_rb(rng):
         sc = F(rng.choice([1, 1, 1, 2, 4, 10, 3]))
         base = [[F(int(i == j)) for j in range(3)] + [F(v) for v in _skew(p)[i]] for i in range(3)]
         blk = [[sc * sum(T[i][k] * base[k][j] for k in range(3)) for j in range(6)] for i in range(3)]
-        if rng.random() < 0.3:
+        if not exact and rng.random() < 0.3:
             i, j = rng.randrange(3), 3 + rng.randrange(3)
             blk[i][j] += F(rng.choice([1, 2, 4, 8, 16, 32]), 16) * rng.choice([1, -1])
             tags.add("perturbed")
-        if rng.random() < 0.15:
+        if not exact and rng.random() < 0.15:
             del blk[rng.randrange(3)]
             tags.add("row-deleted")
         rows += blk
-        if rng.random() < 0.4:
+        if not exact and rng.random() < 0.4:
             rows += [[F(0)] * 3 + [sc * T[i][j] for j in range(3)] for i in range(3)]
             tags.add("rotation-rows")
     tol = (1, 100) if rng.random() < 0.8 else (3, 10)
@@ -1203,7 +1220,7 @@ def correspondence(ctx):
         "upqsetpv:several-upstream", "upqsetpv:several-upstream-above-residual", "upqsetpv:maps-reordered",
         "upqsetpv:maps-reordered-above-residual", "upqsetpv:recursion-error", "upqsetpv:shared-boundary", "upqsetpv:later-upstream-overwrites", "upqsetpv:lean-examples",
         "xyz:all-rows", "xyz:some-rows", "xyz:none", "xyz-input:docstring", "xyz-input:rotation-rows",
-        "xyz-input:sheared", "xyz-input:perturbed", "xyz-input:row-deleted", "xyz-input:non-orthogonal",
+        "xyz-input:sheared", "xyz-input:perturbed", "xyz-input:exact-only", "xyz-input:row-deleted", "xyz-input:non-orthogonal",
         "mat_intersect-order:unsorted-values", "mat_intersect-order:keep0", "mat_intersect-order:keep1",
         "mat_intersect-order:keep2", "mat_intersect-order:keep-other",
     ] + (["findse:absent", "findse:once", "findse:repeated"] if ctx.extra["private_helpers_present"]["_findse"] else [])
@@ -1451,6 +1468,45 @@ def _oracle_maskplus(ctx, spec):
                  {"kind": "maskplus", "spec": spec}, r[0] if r[0] != "ok" else int(r[1]), want)
 
 
+def _oracle_xyz(ctx, nodes, tol, perturb=0.0):
+    """find_xyz_triples on a matrix of exact triples: node = (signed permutation as list of (column, sign), scale,
+    location); every row must be marked, coordinates = the location, scale = the scale.  With `perturb` = a fraction
+    (< 1) of the documented tolerance `tol * (largest model dimension)`, one rotation entry of the LAST node (which is in
+    the basic system at unit scale) is off by that much: it must still be found ("accept up to 1% errors")."""
+    n2p, _ = _mods()
+    rows, want_c, want_s = [], [], []
+    if perturb:
+        nodes = list(nodes[:-1]) + [([(0, 1), (1, 1), (2, 1)], 1, nodes[-1][2])]
+    for perm, sc, p in nodes:
+        T = np.zeros((3, 3))
+        for i, (j, sg) in enumerate(perm):
+            T[i, j] = sg
+        blk = sc * T @ np.hstack([np.eye(3), np.array(_skew(p), dtype=float)])
+        rows += blk.tolist()
+        want_c += [list(map(float, p))] * 3
+        want_s += [float(sc)] * 3
+    inp = {"kind": "xyz", "nodes": [[list(map(list, perm)), sc, list(p)] for perm, sc, p in nodes], "tol": tol,
+           "perturb": perturb}
+    delta = 0.0
+    if perturb:
+        big = max(abs(v) for _, _, p in nodes for v in p)
+        delta = perturb * tol * big
+        rows[-3][4] += delta  # entry (x row, ry column) of the last node
+    r = _call(n2p.find_xyz_triples, np.array(rows), tol=tol)
+    if r[0] != "ok":
+        ctx.fail("find-xyz-triples-exact-raises", "find_xyz_triples raises on a matrix of exact triples", inp, r[0], "all rows")
+        return
+    t = r[1]
+    ok = bool(np.all(t.pv)) and np.allclose(t.coords, want_c, rtol=0, atol=1e-9 + delta) and \
+        np.allclose(t.scales, want_s, rtol=1e-12, atol=0)
+    if not ok:
+        kind_ = "within-tolerance" if perturb else "exact"
+        ctx.fail("find-xyz-triples-%s-node-missed" % kind_ if not np.all(t.pv) else "find-xyz-triples-%s-wrong-location" % kind_,
+                 "every exact x, y, z triple must be marked, with its location and scale", inp,
+                 {"pv": [int(v) for v in t.pv], "coords": np.asarray(t.coords).tolist(), "scales": np.asarray(t.scales).tolist()},
+                 {"pv": "all", "coords": want_c, "scales": want_s})
+
+
 def _oracle_findse(ctx, selist, se):
     """n2p._findse (private; used by upasetpv to find the downstream SE): the first row whose first column is `se`"""
     n2p, _ = _mods()
@@ -1646,6 +1702,9 @@ def _run_one(ctx, inp):
         _oracle_maskplus(ctx, inp["spec"])
     elif k == "findse":
         _oracle_findse(ctx, inp["selist"], inp["se"])
+    elif k == "xyz":
+        _oracle_xyz(ctx, [([tuple(x) for x in perm], sc, tuple(p)) for perm, sc, p in inp["nodes"]], inp["tol"],
+                    inp.get("perturb", 0.0))
 
 
 def _hint_to_input(h):
@@ -1777,6 +1836,16 @@ def search(ctx, hints):
         sl = [[rng.choice([0, 10, 20, 30]), rng.choice([0, 10])] for _ in range(rng.randint(0, 5))]
         _oracle_findse(ctx, sl, rng.choice([0, 10, 20, 30, 7]))
         ctx.count("oracle:findse")
+        nodes = []
+        for _ in range(rng.randint(1, 4)):
+            cols = rng.sample(range(3), 3)
+            nodes.append(([(j, rng.choice([1, -1])) for j in cols], rng.choice([1, 1, 2, 0.5, 10, 3, 0.00259]),
+                          tuple(rng.randint(-32, 32) / 4 for _ in range(3))))
+        _oracle_xyz(ctx, nodes, rng.choice([0.01, 0.01, 0.001, 0.1]))
+        if len(nodes) > 1 and max(abs(v) for _, _, p in nodes for v in p) >= 2:
+            _oracle_xyz(ctx, nodes, rng.choice([0.01, 0.05]), perturb=rng.choice([0.25, 0.5, 0.75]))
+            ctx.count("oracle:find_xyz_triples-within-tolerance")
+        ctx.count("oracle:find_xyz_triples")
         for c, exp in info["expected_upa"].items():
             _oracle_nas(ctx, {"nas": plain, "seup": c, "expected": exp, "style": info["style"]})
             ctx.count("oracle:upasetpv")
